@@ -14,6 +14,11 @@ pub fn unix_timestamp() -> std::time::Duration {
         }
     }
 
+    #[cfg(feature = "verif")]
+    if let Some(t) = crate::verif::now() {
+        return t;
+    }
+
     let now = std::time::SystemTime::now();
 
     #[expect(clippy::expect_used, reason = "trivial")]
